@@ -250,3 +250,21 @@ fn k_model_data_write_size() {
     kani::cover!(true, "reachable");
     core::mem::forget(mdl);
 }
+
+//@unit props=C07 label=S tier=quick fn=model::MDL::update_headers bound="model with no meshes, 1 shape, 2 shape meshes and 1 shape value in its vectors; header shape counts symbolic (stale, as after add_shape_mesh / remove_shape_meshes)"
+//@desc after an edit of the shape tables the stored runtime size is the runtime size of the final model (header counts refreshed before the size is computed), so the data offset derived from it lies behind the runtime block the writer emits
+#[kani::proof]
+#[kani::unwind(5)]
+fn k_update_headers_runtime_size_fresh() {
+    let mut mdl = mk(vec![], vec![lod(0, 0), lod(0, 0), lod(0, 0)], 1, 1);
+    mdl.model_data.header.string_size = 0;
+    mdl.model_data.shapes = vec![ShapeStruct { string_offset: 0, shape_mesh_start_index: [0; 3], shape_mesh_count: [0; 3] }];
+    mdl.model_data.shape_meshes = vec![ShapeMesh { mesh_index_offset: 0, shape_value_count: 0, shape_value_offset: 0 }, ShapeMesh { mesh_index_offset: 0, shape_value_count: 0, shape_value_offset: 0 }];
+    mdl.model_data.shape_values = vec![ShapeValue { base_indices_index: 0, replacing_vertex_index: 0 }];
+    kani::assume(mdl.model_data.header.shape_count <= 8 && mdl.model_data.header.shape_mesh_count <= 8 && mdl.model_data.header.shape_value_count <= 8);
+    mdl.update_headers();
+    assert!(mdl.model_data.header.shape_count == 1 && mdl.model_data.header.shape_mesh_count == 2 && mdl.model_data.header.shape_value_count == 1, "shape counts mirror the vectors");
+    assert!(mdl.file_header.runtime_size == mdl.model_data.calculate_runtime_size(), "stored runtime size is the runtime size of the final model");
+    kani::cover!(true, "reachable");
+    core::mem::forget(mdl);
+}
